@@ -67,7 +67,8 @@ PROP = dict(
     level="proof",
     rule="each case = algorithm (Greedy | KarmarkarKarp) x weight family (small alphabet, random, ties, one dominant, "
          "zeros, all equal, tiny incl. empty, large values up to 2^40, two values, powers of two, one negative weight) "
-         "x part count (mostly 2..8; also 0, 1, 9..12, more parts than elements) x a malformed stream (partition array "
+         "x part count (mostly 2..8; also 0, 1, 9..12, more parts than elements) + a mid-size family (1 single case in 30: "
+         "Greedy 64..300 weights on 2..64 parts, KarmarkarKarp 30..100 weights on 2..12 parts) x a malformed stream (partition array "
          "shorter/longer/empty); half of the Greedy cases are run a second time with f64 weights holding the same "
          "integers; plus a REUSE stream (about a third of the cases): one Greedy / KarmarkarKarp VALUE serves a sequence of "
          "2-4 calls (fewer weights than parts first, then more; other lengths; the previous output, resized with garbage, "
